@@ -262,6 +262,12 @@ func combGrid(c *Ctx) []combIn {
 			}
 		}
 	}
+	// every k up to 220 with ranks at the top of the int range (the elements are then only a little larger than k)
+	for k := 13; k <= 220; k++ {
+		for _, rk := range []int64{math.MaxInt64, math.MaxInt64 - 1, math.MaxInt64/2 + r.Int63n(1<<61), 3130921572628162950 + r.Int63n(1<<40), r.Int63() >> uint(r.Intn(50)), int64(r.Intn(100))} {
+			add("Unrank", fmt.Sprint(rk), fmt.Sprint(k))
+		}
+	}
 	add("Unrank", "50000000000000", "2")
 	add("Unrank", "3500000000001", "2")
 	// Rank: seeded increasing sequences, small and large elements
